@@ -293,6 +293,82 @@ fn run_long(c: &LongCase) -> CaseResult {
     Ok(v)
 }
 
+// ------------------------------------------------------------------------------------------
+// a fault that strikes a draw of the steady ticker
+
+#[derive(Debug, Clone, Serialize, Deserialize)]
+pub struct TickerFault {
+    /// index of the failing terminal call (the ticker makes the calls)
+    at: u8,
+    kind: u8,
+    /// 0 once, 1 every second call for a while (the terminal recovers after 40 calls)
+    mode: u8,
+    interval_ms: u8,
+    in_multi: bool,
+}
+
+fn run_ticker_fault(c: &TickerFault) -> CaseResult {
+    use std::time::{Duration, Instant};
+    let vt = VTerm::raw(50, 80);
+    let target = indicatif::ProgressDrawTarget::term_like_with_hz(vt.boxed(), 255);
+    let (mp, pb) = if c.in_multi {
+        let mp = indicatif::MultiProgress::with_draw_target(target);
+        let pb = mp.add(indicatif::ProgressBar::new(100));
+        (Some(mp), pb)
+    } else {
+        (None, indicatif::ProgressBar::with_draw_target(Some(100), target))
+    };
+    pb.set_style(indicatif::ProgressStyle::with_template("{spinner} {pos}/{len} {msg}").unwrap());
+    let at = 3 + c.at as usize % 40;
+    let kinds = [io::ErrorKind::BrokenPipe, io::ErrorKind::WouldBlock, io::ErrorKind::Other, io::ErrorKind::Interrupted, io::ErrorKind::TimedOut];
+    vt.set_fault(Some(FaultPlan { at, mode: if c.mode % 2 == 0 { FaultMode::Once } else { FaultMode::EverySecond }, kind: kinds[c.kind as usize % kinds.len()] }));
+    let interval = Duration::from_millis(1 + c.interval_ms as u64 % 4);
+    let r = catch(|| pb.enable_steady_tick(interval));
+    r.map_err(|p| Fail::new("panic", format!("enable_steady_tick panicked: {p}")))?;
+    let wait_until = |cond: &dyn Fn() -> bool| {
+        let t0 = Instant::now();
+        while !cond() && t0.elapsed() < Duration::from_secs(10) {
+            std::thread::sleep(Duration::from_millis(1));
+        }
+        cond()
+    };
+    let ctx = format!("steady tick every {interval:?}, terminal call #{at} fails ({:?}, mode {}), in MultiProgress: {}", kinds[c.kind as usize % kinds.len()], c.mode % 2, c.in_multi);
+    ensure!(wait_until(&|| vt.lock().faults_fired > 0), "ticker_never_reached_fault", "{ctx}: the ticker made fewer than {at} terminal calls within 10 s");
+    if c.mode % 2 == 1 {
+        // let it fail for a while, then the terminal recovers
+        wait_until(&|| vt.lock().faults_fired >= 20);
+    }
+    vt.set_fault(None);
+    // the bar keeps working: the ticker goes on redrawing, other calls work and are reflected
+    let n = vt.nflush();
+    ensure!(wait_until(&|| vt.nflush() >= n + 3), "ticker_dead_after_fault", "{ctx}: after the terminal recovered the bar was redrawn {} time(s) in 10 s", vt.nflush() - n);
+    catch(|| {
+        pb.inc(7);
+        pb.set_message("after");
+    })
+    .map_err(|p| Fail::new("panic", format!("{ctx}: inc/set_message after the fault panicked: {p}")))?;
+    ensure!(pb.position() == 7 && pb.message() == "after" && !pb.is_finished(), "state_diverged", "{ctx}: position {} message {:?} finished {}", pb.position(), pb.message(), pb.is_finished());
+    let shows = |vt: &VTerm| vt.last_frame_lines().map_or(false, |l| l.iter().any(|x| x.contains("7/100 after")));
+    ensure!(wait_until(&|| shows(&vt)), "ticker_dead_after_fault", "{ctx}: the state set after the fault (7/100 after) never reached the terminal; last frame {:?}", vt.last_frame_lines());
+    catch(|| {
+        pb.disable_steady_tick();
+        pb.finish();
+    })
+    .map_err(|p| Fail::new("panic", format!("{ctx}: disable_steady_tick/finish panicked: {p}")))?;
+    ensure!(pb.is_finished() && pb.position() == 100, "state_diverged", "{ctx}: after finish(): position {} finished {}", pb.position(), pb.is_finished());
+    catch(move || {
+        drop(pb);
+        drop(mp);
+    })
+    .map_err(|p| Fail::new("panic", format!("{ctx}: drop panicked: {p}")))?;
+    let mut v = Verdict::default();
+    v.nontrivial = true;
+    v.label("fault_inside_a_ticker_draw");
+    v.label_if(c.in_multi, "inside_multi_progress");
+    v.label_if(c.mode % 2 == 1, "repeated_faults_then_recovery");
+    Ok(v)
+}
+
 pub fn property() -> Property {
     let w = default_workers();
     Property {
@@ -350,6 +426,17 @@ pub fn property() -> Property {
                 signature: no_signature,
                 essential: &["more_than_100_failed_calls", "more_than_300_failed_calls", "rate_limited_target", "inside_multi_progress"],
                 workers: w,
+                decode: None,
+            }),
+            Box::new(Gen::<TickerFault> {
+                name: "ticker_fault",
+                rule: "real threads: a steady ticker (1-4 ms) draws on a terminal whose k-th call (k = 3..42) fails once, or every second call 20 times before it recovers; afterwards the ticker must go on redrawing (3 more frames and the state set after the fault on screen within 10 s), inc/set_message/disable_steady_tick/finish/drop must not panic and the getters must be right; non-trivial = every case",
+                strategy: |_| (any::<u8>(), 0u8..5, 0u8..2, 0u8..4, any::<bool>()).prop_map(|(at, kind, mode, interval_ms, in_multi)| TickerFault { at, kind, mode, interval_ms, in_multi }).boxed(),
+                cases: |t| t.pick(12, 600),
+                run: run_ticker_fault,
+                signature: no_signature,
+                essential: &["fault_inside_a_ticker_draw", "inside_multi_progress", "repeated_faults_then_recovery"],
+                workers: 8,
                 decode: None,
             }),
         ],
